@@ -2,19 +2,56 @@ import Mathlib.Tactic
 import Sentinel.Lemmas.PipelineHist
 import Sentinel.Props.C03
 /-!
-# The breaker component of the integrated pipeline moves by `CB.step` only
+# The breaker component of the integrated pipeline moves by the breaker model's own functions only
 
-Every pipeline op changes `cb` by zero or one step **of the breaker model itself** (`step_cb`); hence C03's
-`step_keeps_open` applies op by op along any integrated history (`step_keeps_open_integrated`).
+Every pipeline op changes `cb` by zero or one **move of the breaker model** (`cbApply`: a clock step, `CB.doEntry`,
+`CB.doExit` — the stable core functions of `Model/Breaker.lean`); `cbApply_eq_step` is the *only* place where the op
+constructors of `CB.Op` are mentioned (whatever extra fields `CB.Op.entry` carries, `CB.step` ignores them:
+`Sentinel.C03.batch_irrelevant`).  Hence C03's `step_keeps_open` / `open_blocks_resource` apply op by op along any
+integrated history (`step_keeps_open_integrated`).
+
+Interface used from C03: `OpenUntil`, `step_keeps_open` (first conjunct only), `open_blocks_resource`.
 -/
 namespace Sentinel.Pipe
 open Sentinel.LA Sentinel.C03
 
+/-- one move of the breaker model, in terms of its core functions -/
+inductive CbMove
+  | clock (t : Nat)
+  | entry (id : Nat) (res : String)
+  | exit (id : Nat) (err : Bool)
+deriving DecidableEq, Repr
+
+/-- apply a move with the code-shaped store -/
+def cbApply (c : CB.Sys (Arr CB.Cnt)) : CbMove → CB.Sys (Arr CB.Cnt) × CB.Out
+  | .clock t => ({ c with now := t }, {})
+  | .entry id res => CB.doEntry c id res
+  | .exit id err => CB.doExit CB.laOps c id err
+
+/-- the op of the breaker model's own language a move is (batch count: the default; the machine ignores it) -/
+def CbMove.toOp : CbMove → CB.Op
+  | .clock t => .clock t
+  | .entry id res => .entry id res
+  | .exit id err => .exit id err
+
+/-- the bridge to the breaker model's op language — the only mention of `CB.Op`'s constructors -/
+theorem cbApply_eq_step (c : CB.Sys (Arr CB.Cnt)) (m : CbMove) : cbApply c m = CB.step CB.laOps c m.toOp := by
+  cases m <;> rfl
+
+theorem doEntry_now {W : Type} (c : CB.Sys W) (id : Nat) (res : String) : (CB.doEntry c id res).1.now = c.now := by
+  simp only [CB.doEntry]
+  split <;> rfl
+
+theorem doExit_now {W : Type} (ops : CB.Rule → CB.WinOps W) (c : CB.Sys W) (id : Nat) (err : Bool) :
+    (CB.doExit ops c id err).1.now = c.now := by
+  simp only [CB.doExit]
+  split <;> rfl
+
 variable {R : Type} [LT R] [∀ a b : R, Decidable (a < b)]
 
-/-- the breaker-model op a pipeline op amounts to (`none`: the breaker component is not touched): a clock step, an entry
+/-- the breaker-model move a pipeline op amounts to (`none`: the breaker component is not touched): a clock step, an entry
     that **reaches** the breaker slot, an exit (with the error the context carries) -/
-def cbOp (A : System.Arith R) (s : St R) : Op R → Option CB.Op
+def cbMove (A : System.Arith R) (s : St R) : Op R → Option CbMove
   | .clock t => if t = 0 ∨ (s.started = true ∧ t < s.now) then none else some (.clock t)
   | .entry q =>
     if !s.started || usedId s q.id then none
@@ -23,49 +60,78 @@ def cbOp (A : System.Arith R) (s : St R) : Op R → Option CB.Op
   | _ => none
 
 /-- **projection onto the breaker module** (step form): unless breakers are being loaded, the breaker component after a
-    pipeline op is the breaker model's own step on the projected op, and the listener log grows by that step's events -/
+    pipeline op is the breaker model's own move on the projected op, and the listener log grows by that move's events -/
 theorem step_cb (A : System.Arith R) (s : St R) (o : Op R) (hl : ∀ rs, o = .loadCb rs → s.cbLoaded = true) :
-    (step A s o).1.cb = (match cbOp A s o with | some c => (CB.step CB.laOps s.cb c).1 | none => s.cb) ∧
+    (step A s o).1.cb = (match cbMove A s o with | some m => (cbApply s.cb m).1 | none => s.cb) ∧
     (o ≠ .log → (step A s o).1.evs =
-      s.evs ++ (match cbOp A s o with | some c => (CB.step CB.laOps s.cb c).2.evs | none => [])) := by
+      s.evs ++ (match cbMove A s o with | some m => (cbApply s.cb m).2.evs | none => [])) := by
   cases o with
   | clock t =>
-    simp only [step, cbOp]
+    simp only [step, cbMove]
     by_cases h0 : t = 0
     · simp [h0]
     · by_cases hs : s.started = true
       · by_cases hlt : t < s.now
         · simp [h0, hs, hlt]
-        · simp [h0, hs, hlt, CB.step]
+        · simp [h0, hs, hlt, cbApply]
       · have hs' : s.started = false := by simpa using hs
-        simp [h0, hs', CB.step]
-  | loadSys rs => simp only [step, cbOp]; split_ifs <;> simp
+        simp [h0, hs', cbApply]
+  | loadSys rs => simp only [step, cbMove]; split_ifs <;> simp
   | loadFlow rs =>
-    simp only [step, cbOp]
+    simp only [step, cbMove]
     split_ifs
     · simp
     · have hg := ghostNodes_frame rs s
       simp [loadFlow, hg.2.2.1, hg.2.2.2.2.1]
-  | loadIso rs => simp only [step, cbOp]; split_ifs <;> simp
-  | loadHot rs => simp only [step, cbOp]; split_ifs <;> simp
+  | loadIso rs => simp only [step, cbMove]; split_ifs <;> simp
+  | loadHot rs => simp only [step, cbMove]; split_ifs <;> simp
   | loadCb rs =>
     have := hl rs rfl
-    simp [step, cbOp, this]
-  | sysLoad x => simp [step, cbOp]
-  | sysCpu x => simp [step, cbOp]
-  | trace id => simp only [step, cbOp]; split_ifs <;> simp [trace, entStep]
-  | log => simp [step, cbOp]
+    simp [step, cbMove, this]
+  | sysLoad x => simp [step, cbMove]
+  | sysCpu x => simp [step, cbMove]
+  | trace id => simp only [step, cbMove]; split_ifs <;> simp [trace, entStep]
+  | log => simp [step, cbMove]
   | exit id err =>
-    simp only [step, cbOp]
+    simp only [step, cbMove]
     split_ifs
     · simp
-    · simp [exit, entStep, CB.step]
+    · simp [exit, entStep, cbApply]
   | entry q =>
-    simp only [step, cbOp]
+    simp only [step, cbMove]
     split_ifs with hc hr
     · simp
-    · simp [entry_cb, entry_evs, hr, CB.step]
+    · simp [entry_cb, entry_evs, hr, cbApply]
     · simp [entry_cb, entry_evs, hr]
+
+theorem step_cbLoaded (A : System.Arith R) (s : St R) (o : Op R) (hl : s.cbLoaded = true) :
+    (step A s o).1.cbLoaded = true := by
+  cases o with
+  | clock t => simp only [step]; split_ifs <;> simp [hl]
+  | loadSys rs => simp only [step]; split_ifs <;> simp [hl]
+  | loadFlow rs => simp only [step]; split_ifs <;> simp [hl, loadFlow, (ghostNodes_frame rs s).2.2.2.2.2.2]
+  | loadIso rs => simp only [step]; split_ifs <;> simp [hl]
+  | loadHot rs => simp only [step]; split_ifs <;> simp [hl]
+  | loadCb rs => simp [step, hl]
+  | sysLoad x => simp [step, hl]
+  | sysCpu x => simp [step, hl]
+  | trace id => simp only [step]; split_ifs <;> simp [hl, trace, entStep]
+  | log => simp [step, hl]
+  | exit id err => simp only [step]; split_ifs <;> simp [hl, exit, entStep]
+  | entry q => simp only [step]; split_ifs <;> simp [hl, (entry_static A s q).2.2.2.2.2.2.2.1]
+
+/-- a move before the deadline keeps the breaker open with the same deadline (C03 `step_keeps_open` through the bridge) -/
+theorem cbApply_keeps_open (c : CB.Sys (Arr CB.Cnt)) (m : CbMove) (k : Nat) (res : String) (D : Nat)
+    (h : OpenUntil k res D c.brs) (hnow : c.now < D) : OpenUntil k res D (cbApply c m).1.brs := by
+  rw [cbApply_eq_step]
+  exact (step_keeps_open CB.laOps c m.toOp k res D h hnow).1
+
+theorem cbApply_now (c : CB.Sys (Arr CB.Cnt)) (m : CbMove) :
+    (cbApply c m).1.now = match m with | .clock t => t | _ => c.now := by
+  cases m with
+  | clock t => rfl
+  | entry id res => exact doEntry_now c id res
+  | exit id err => exact doExit_now _ c id err
 
 /-- one integrated op before the deadline: the breaker stays open with the same deadline, and a request to its resource is
     not admitted (some slot blocks it: an earlier one, or the breaker) -/
@@ -75,21 +141,8 @@ theorem step_keeps_open_integrated (A : System.Arith R) (s : St R) (o : Op R) (k
     OpenUntil k (rname res) D (step A s o).1.cb.brs ∧ (step A s o).1.cb.now < D ∧ (step A s o).1.cbLoaded = true ∧
     (∀ q, o = .entry q → q.res = res → (step A s o).2 ≠ Out.dec none) := by
   have hcb := (step_cb A s o (fun _ _ => hl)).1
-  have hloaded : (step A s o).1.cbLoaded = true := by
-    cases o with
-    | clock t => simp only [step]; split_ifs <;> simp [hl]
-    | loadSys rs => simp only [step]; split_ifs <;> simp [hl]
-    | loadFlow rs => simp only [step]; split_ifs <;> simp [hl, loadFlow, (ghostNodes_frame rs s).2.2.2.2.2.2]
-    | loadIso rs => simp only [step]; split_ifs <;> simp [hl]
-    | loadHot rs => simp only [step]; split_ifs <;> simp [hl]
-    | loadCb rs => simp [step, hl]
-    | sysLoad x => simp [step, hl]
-    | sysCpu x => simp [step, hl]
-    | trace id => simp only [step]; split_ifs <;> simp [hl, trace, entStep]
-    | log => simp [step, hl]
-    | exit id err => simp only [step]; split_ifs <;> simp [hl, exit, entStep]
-    | entry q => simp only [step]; split_ifs <;> simp [hl, (entry_static A s q).2.2.2.2.2.2.2.1]
-  cases hop : cbOp A s o with
+  have hloaded := step_cbLoaded A s o hl
+  cases hop : cbMove A s o with
   | none =>
     rw [hop] at hcb
     simp only at hcb
@@ -97,7 +150,7 @@ theorem step_keeps_open_integrated (A : System.Arith R) (s : St R) (o : Op R) (k
     refine ⟨h, hnow, hloaded, ?_⟩
     intro q hq _
     subst hq
-    simp only [cbOp] at hop
+    simp only [cbMove] at hop
     simp only [step]
     split_ifs at hop ⊢ with hc hr
     · simp
@@ -105,44 +158,42 @@ theorem step_keeps_open_integrated (A : System.Arith R) (s : St R) (o : Op R) (k
       simp only [entry_snd, Out.dec.injEq] at hd
       rw [hd] at hr
       exact hr rfl
-  | some c =>
+  | some m =>
     rw [hop] at hcb
     simp only at hcb
     rw [hcb]
-    obtain ⟨k1, k2⟩ := step_keeps_open CB.laOps s.cb c k (rname res) D h hnow
-    have hnow' : (CB.step CB.laOps s.cb c).1.now < D := by
-      rw [step_now]
-      cases c with
+    have k1 := cbApply_keeps_open s.cb m k (rname res) D h hnow
+    have hnow' : (cbApply s.cb m).1.now < D := by
+      rw [cbApply_now]
+      cases m with
       | clock t =>
         cases o with
         | clock t' =>
-          simp only [cbOp] at hop
+          simp only [cbMove] at hop
           split_ifs at hop
-          simp only [Option.some.injEq, CB.Op.clock.injEq] at hop
+          simp only [Option.some.injEq, CbMove.clock.injEq] at hop
           subst hop
           exact hclk _ rfl
-        | entry q => simp only [cbOp] at hop; split_ifs at hop <;> simp at hop
-        | exit id err => simp only [cbOp] at hop; split_ifs at hop <;> simp at hop
-        | _ => simp [cbOp] at hop
+        | entry q => simp only [cbMove] at hop; split_ifs at hop <;> simp at hop
+        | exit id err => simp only [cbMove] at hop; split_ifs at hop <;> simp at hop
+        | _ => simp [cbMove] at hop
       | entry id r => exact hnow
       | exit id e => exact hnow
     refine ⟨k1, hnow', hloaded, ?_⟩
     intro q hq hres
     subst hq
-    simp only [cbOp] at hop
+    simp only [cbMove] at hop
     simp only [step]
     split_ifs at hop ⊢ with hc hr
-    simp only [Option.some.injEq] at hop
-    subst hop
     intro hd
     simp only [entry_snd, Out.dec.injEq] at hd
-    obtain ⟨j, hj⟩ := k2 q.id (by rw [hres])
+    -- the open breaker rejects the request at the breaker slot, so the chain cannot have answered `pass`
+    obtain ⟨b, hb, _, h2, h3, h4⟩ := h
+    obtain ⟨⟨j, hj⟩, _⟩ := open_blocks_resource s.cb q.id (rname q.res) b hb (by rw [h2, hres]) h3 (by rw [h4]; exact hnow)
     have hv := decision_none A s q hd .cb
     simp only [verdict] at hv
     have hdec := doEntry_dec s.cb q.id (rname q.res)
-    rw [hv] at hdec
-    simp only [CB.step] at hj
-    rw [hj] at hdec
+    rw [hv, hj] at hdec
     simp [cbBlk] at hdec
 
 end Sentinel.Pipe
